@@ -1,3 +1,200 @@
-(* C28 — placeholder while the proofs are being built *)
-From WK Require Import Base.Base Model.GatewaySend.
+(* C28 — Every SEND gets exactly one SENDACK, in order.
+
+   Model (Model/GatewaySend.v): pkg/gateway/core sendExecutor as a transition
+   system over the code's own lock-protected / atomic steps — admission gate
+   (admissionMu + WaitGroup), depth reservations, ShardedMailbox enqueue, one
+   drain worker per shard (collectBatch, handleMailboxBatch, the pure splitter
+   of dispatchMailboxBatch, the SendBatchHandler writing one SENDACK per item
+   or failing, handleHandlerError, completeAdmission), DrainSends / stop
+   callers with deadlines, the drain waiter, the mailbox closer, session close
+   and concurrent outbound writers.  [run c evs] executes an ARBITRARY
+   interleaving [evs] of any number of sessions, shards and drain callers; the
+   state carries the observable history stamped by a logical clock.
+
+   Vocabulary (definitions in Model/GatewaySend.v and Proof/GatewaySend*.v):
+     accq h s   ClientSeqs of the SENDs of session s that were accepted, in order
+     ackq w s   ClientSeqs of the SENDACKs written to session s's transport, in order
+     finq d s   ClientSeqs of s's SENDs the handler is finished with
+     cfg_ok c   := 0 < c_shards c
+     nopanic e  := e is not a handler panic (EWork _ CPanic)
+     quiescent  := every submitter and every drain worker is idle. *)
+From Coq Require Import Sorting.Sorted.
+From WK Require Import Base.Base Model.GatewaySend Proof.GatewaySend_lib Proof.GatewaySend_split
+  Proof.GatewaySend_acct Proof.GatewaySend_order Proof.GatewaySend_ack Proof.GatewaySend_log Proof.GatewaySend
+  Gen.Consts_C28.
 Open Scope N_scope.
+
+(* ---- the pure splitter (dispatchMailboxBatch) -------------------------------------------- *)
+
+Theorem c28_split_partition : forall (A : Type) (size : A -> N) (maxrec : nat) (maxbytes : N) (items : list A),
+  concat (split size maxrec maxbytes items) = items
+  /\ Forall (fun b => b <> []
+                      /\ (length b <= eff_maxrec maxrec)%nat
+                      /\ (0 < maxbytes -> sumN (map size b) <= maxbytes \/ length b = 1%nat))
+            (split size maxrec maxbytes items).
+Proof. exact @split_partition. Qed.
+Print Assumptions c28_split_partition.
+
+(* ---- exactly one SENDACK ------------------------------------------------------------------ *)
+
+(* never two SENDACKs for one SEND: unconditional (any handler behaviour, any configuration) *)
+Theorem c28_at_most_one_ack : forall c evs s,
+  cfg_ok c -> NoDup (ackq (wire (run c evs)) s).
+Proof. exact acks_nodup. Qed.
+Print Assumptions c28_at_most_one_ack.
+
+(* SENDACK order = SEND order, without gaps: the acknowledged SENDs of a session are
+   a PREFIX of its accepted SENDs (CloseOnHandlerError, the handler does not panic) *)
+Theorem c28_ack_order : forall c evs s,
+  cfg_ok c -> c_closeonerr c = true -> Forall nopanic evs ->
+  exists r, accq (sends (run c evs)) s = ackq (wire (run c evs)) s ++ r.
+Proof. exact acks_prefix. Qed.
+Print Assumptions c28_ack_order.
+
+(* in every configuration and for every handler behaviour the order is preserved *)
+Theorem c28_ack_order_any : forall c evs s,
+  cfg_ok c -> subseqb (ackq (wire (run c evs)) s) (accq (sends (run c evs)) s) = true.
+Proof. exact acks_subseq. Qed.
+Print Assumptions c28_ack_order_any.
+
+(* exactly one: once the pipeline is quiescent every accepted SEND of a session that
+   is still open has its SENDACK on the wire *)
+Theorem c28_one_ack : forall c evs s,
+  cfg_ok c -> c_closeonerr c = true -> Forall nopanic evs ->
+  quiescent (run c evs) -> sclosed (run c evs) s = false ->
+  ackq (wire (run c evs)) s = accq (sends (run c evs)) s.
+Proof. exact acks_complete. Qed.
+Print Assumptions c28_one_ack.
+
+(* ---- outbound frames are written in issue order ---------------------------------------------- *)
+
+(* the transport order of every session is the order in which the writers held the
+   session's write lock (stamps strictly increase along the wire), every successful
+   WriteFrame call put exactly one frame on the wire during the call, failed calls none *)
+Theorem c28_outbound_fifo : forall c evs,
+  StronglySorted N.lt (map hw_t (wire (run c evs)))
+  /\ (forall i, In i (issues (run c evs)) ->
+        length (filter (issue_matches i) (wire (run c evs))) = if hi_ok i then 1%nat else 0%nat)
+  /\ (forall e, In e (wire (run c evs)) ->
+        hw_w e = 0 \/ exists i, In i (issues (run c evs)) /\ hi_ok i = true /\ issue_matches i e = true).
+Proof. exact outbound_fifo. Qed.
+Print Assumptions c28_outbound_fifo.
+
+(* ---- the drain fence ---------------------------------------------------------------------------- *)
+
+(* after the drain step closed admission no SEND passes the gate any more: the
+   admission WaitGroup never grows again and admission stays closed *)
+Theorem c28_drain_fence : forall c evs more,
+  closed (run c evs) = true ->
+  closed (run c (evs ++ more)) = true /\ admitted (run c (evs ++ more)) <= admitted (run c evs).
+Proof. exact no_admission_after_stop. Qed.
+Print Assumptions c28_drain_fence.
+
+(* real-time form (what a caller can observe): a SEND accepted by the gateway was
+   handed over no later than the return of every DrainSends call *)
+Theorem c28_drain_fence_realtime : forall c evs x d,
+  cfg_ok c -> In x (sends (run c evs)) -> hs_acc x = true -> In d (drains (run c evs)) ->
+  hs_t0 x <= hr_t1 d.
+Proof. exact fence_realtime. Qed.
+Print Assumptions c28_drain_fence_realtime.
+
+(* SENDs admitted earlier still complete: when a DrainSends call returns nil every
+   accepted SEND has been handled strictly before that return *)
+Theorem c28_drain_completes : forall c evs d x,
+  cfg_ok c -> In d (drains (run c evs)) -> hr_ok d = true -> In x (sends (run c evs)) -> hs_acc x = true ->
+  exists e, In e (disps (run c evs)) /\ hd_s e = hs_s x /\ hd_q e = hs_q x /\ hd_t e < hr_t1 d.
+Proof. exact drain_completes. Qed.
+Print Assumptions c28_drain_completes.
+
+(* the liveness clause as quiescent-state safety: in every state without a pending
+   pipeline step nothing is admitted and every accepted SEND has been handled *)
+Theorem c28_quiescent_complete : forall c evs x,
+  cfg_ok c -> quiescent (run c evs) -> In x (sends (run c evs)) -> hs_acc x = true ->
+  admitted (run c evs) = 0 /\
+  exists e, In e (disps (run c evs)) /\ hd_s e = hs_s x /\ hd_q e = hs_q x.
+Proof. exact quiescent_all_handled. Qed.
+Print Assumptions c28_quiescent_complete.
+
+(* only accepted SENDs are dispatched, none twice *)
+Theorem c28_dispatch_once : forall c evs,
+  cfg_ok c -> ok_dispatch (hist_of (run c evs)) = true.
+Proof. exact ok_dispatch_model. Qed.
+Print Assumptions c28_dispatch_once.
+
+(* the accounting behind the fence: the WaitGroup counts exactly the SENDs between
+   the gate and their completeAdmission, and the mailbox is closed only after it
+   reached zero (so the mailbox never refuses an admitted SEND as closed) *)
+Theorem c28_mailbox_closed_after_drain : forall c evs,
+  cfg_ok c -> mclosed (run c evs) = true -> drained (run c evs) = true /\ admitted (run c evs) = 0.
+Proof. exact mailbox_closed_after_drain. Qed.
+Print Assumptions c28_mailbox_closed_after_drain.
+
+(* ---- the monitor is the property: every history the model can produce passes it --------------- *)
+
+Theorem c28_model_satisfies_monitor : forall c evs final,
+  cfg_ok c -> (c_closeonerr c = true -> Forall nopanic evs) -> (final = true -> quiescent (run c evs)) ->
+  monitor (c_closeonerr c) (c_nsess c) final (hist_of (run c evs)) = 0.
+Proof. exact model_satisfies_monitor. Qed.
+Print Assumptions c28_model_satisfies_monitor.
+
+(* the configuration the server composition uses (constants regenerated from the code) *)
+Theorem c28_default_config :
+  default_close_on_handler_error = true
+  /\ logical_shard_count async_send_ordering_shards_per_worker default_async_send_workers
+       default_async_send_queue_capacity = default_shards
+  /\ shard_capacity default_async_send_queue_capacity default_shards = default_shard_capacity
+  /\ (default_async_send_queue_capacity <=? default_shards * default_shard_capacity) = true
+  /\ (0 <? default_async_send_batch_max_records) = true /\ (0 <? default_async_send_batch_max_bytes) = true.
+Proof. exact default_config. Qed.
+Print Assumptions c28_default_config.
+
+(* ---- non-vacuity ----------------------------------------------------------------------------------- *)
+
+Definition ex_sub4 (s : nat) := [ESub s; ESub s; ESub s; ESub s].
+
+(* two sessions on one shard; sub-batches split by bytes; an outbound push; a drain
+   that returns nil; a SEND after the drain is rejected and closes its session *)
+Example c28_example_run :
+  let c := Cfg 3 1 4 4 2 10 true true in
+  let evs := [ESend 1 3] ++ ex_sub4 1%nat ++ [ESend 2 20] ++ ex_sub4 2%nat ++ [ESend 1 4] ++ ex_sub4 1%nat
+             ++ [EPush 1 7 70] ++ repeat (EWork 0 CStop) 40
+             ++ [EDrainCall 0 false; EDrain 0 false; EDrain 0 false; EWaiter; EDrain 0 false; ESend 2 1]
+             ++ ex_sub4 2%nat in
+  let st := run c evs in
+  map (fun x => (hs_s x, hs_q x, hs_acc x)) (sends st)
+    = [(1%nat, 0, true); (2%nat, 0, true); (1%nat, 1, true); (2%nat, 1, false)]
+  /\ map (fun x => (hw_s x, hw_w x, hw_tag x)) (wire st)
+    = [(1%nat, 7, 70); (1%nat, 0, 0); (2%nat, 0, 0); (1%nat, 0, 1)]
+  /\ map hr_ok (drains st) = [true] /\ sclosed st 2%nat = true /\ admitted st = 0
+  /\ monitor true 3 true (hist_of st) = 0.
+Proof. vm_compute. repeat split; reflexivity. Qed.
+
+(* the two hypotheses of c28_one_ack are needed (faithful model of the code):
+   (a) without CloseOnHandlerError a failed SENDACK write to a closed peer aborts the
+       whole sub-batch: the SEND of the OTHER, still open session 2 is never acknowledged *)
+Example c28_closeonerr_needed :
+  let c := Cfg 3 1 4 4 4 100 false true in
+  let evs := [ESend 1 3] ++ ex_sub4 1%nat ++ [ESend 2 5] ++ ex_sub4 2%nat ++ [EClose 1]
+             ++ [EWork 0 CGo; EWork 0 CGo; EWork 0 CGo; EWork 0 CStop; EWork 0 CGo; EWork 0 CGo; EWork 0 CFail]
+             ++ repeat (EWork 0 CStop) 20 in
+  let st := run c evs in
+  Forall nopanic evs /\ accq (sends st) 2%nat = [0] /\ ackq (wire st) 2%nat = [] /\ sclosed st 2%nat = false
+  /\ wpcs st 0%nat = WIdle /\ spcs st 2%nat = SIdle /\ admitted st = 0
+  /\ monitor true 3 true (hist_of st) = 1.
+Proof. vm_compute. repeat split; try reflexivity. repeat constructor. Qed.
+
+(* (b) a handler panic is recovered by dispatchBatchSafely: no SENDACK, no close *)
+Example c28_panic_needed :
+  let c := Cfg 3 1 4 4 4 100 true true in
+  let evs := [ESend 1 3] ++ ex_sub4 1%nat
+             ++ [EWork 0 CGo; EWork 0 CGo; EWork 0 CStop; EWork 0 CGo; EWork 0 CGo; EWork 0 CPanic]
+             ++ repeat (EWork 0 CStop) 20 in
+  let st := run c evs in
+  accq (sends st) 1%nat = [0] /\ ackq (wire st) 1%nat = [] /\ sclosed st 1%nat = false
+  /\ wpcs st 0%nat = WIdle /\ admitted st = 0 /\ monitor true 3 true (hist_of st) = 1.
+Proof. vm_compute. repeat split; reflexivity. Qed.
+
+(* the splitter on a concrete batch: maxRecords 3, maxBytes 10 *)
+Example c28_example_split :
+  split (fun x : N => x) 3 10 [4; 4; 4; 20; 1; 1; 1; 1] = [[4; 4]; [4]; [20]; [1; 1; 1]; [1]].
+Proof. vm_compute. reflexivity. Qed.
